@@ -1,5 +1,216 @@
 package poolsim
 
-import "verifsim/simcore"
+import (
+	"fmt"
+	"math/big"
+	"testing/synctest"
+	"time"
 
-func (w *lpWorld) runAsync() *simcore.Violation { return w.runSerial() }
+	"github.com/ethereum/go-ethereum/common"
+	"github.com/ethereum/go-ethereum/core/types"
+
+	"verifsim/simcore"
+	"verifsim/simsched"
+)
+
+// Asynchronous configuration: consecutive operations are issued concurrently
+// (Add with sync=false, head events, SetGasTip) as scheduler-owned actors, and
+// every call of the pools into the chain seam (StateAt, GetBlock, CurrentBlock)
+// is a gate as well, so the tape decides where the reset goroutine's state reads
+// fall relative to further submissions and head events. The runReorg goroutine
+// holds the pool lock while parked at the seam: quiescence is detected lock-aware
+// (ModePoll). Invariants are evaluated at the quiescence point after each round.
+
+const roundMax = 4
+
+func (w *lpWorld) runAsync() *simcore.Violation {
+	if v := w.check(nil, nil, w.observe()); v != nil {
+		return v
+	}
+	tape := &simcore.TapeReader{T: w.p.Tape}
+	var fp simcore.Hash64 = simcore.NewHash()
+	steps, choices := 0, 0
+	ops := w.p.Ops
+	for i := 0; i < len(ops); {
+		time.Sleep(time.Millisecond)
+		if ops[i].Kind == "clock" {
+			pre := w.observe()
+			info := w.apply(i, &ops[i], pre)
+			synctest.Wait()
+			post := w.observe()
+			w.record(i, &ops[i], info, post)
+			if v := w.check(&ops[i], info, post); v != nil {
+				v.Msg = fmt.Sprintf("after op %d (%s): %s", i, ops[i].Kind, v.Msg)
+				return v
+			}
+			i++
+			continue
+		}
+		// collect a round
+		j := i
+		for j < len(ops) && j-i < roundMax && ops[j].Kind != "clock" {
+			j++
+		}
+		pre := w.observe()
+		info := &opInfo{pre: pre, async: true, adopted: map[common.Hash]bool{}}
+		// the rest of the tape drives this round's scheduler
+		rest := w.p.Tape
+		if tape.Used() < len(rest) {
+			rest = rest[tape.Used():]
+		} else {
+			rest = nil
+		}
+		sched := simsched.New(rest, simsched.ModePoll)
+		sched.MaxSteps = 5000
+		// everything that needs the harness model is prepared before the actors start
+		type addAct struct {
+			idx int
+			txs []*types.Transaction
+		}
+		var adds []addAct
+		var heads []*simBlock
+		var tips []struct {
+			idx int
+			tip uint64
+		}
+		headPre := pre
+		for k := i; k < j; k++ {
+			op := &ops[k]
+			switch op.Kind {
+			case "add":
+				var txs []*types.Transaction
+				for t := range op.Txs {
+					txs = append(txs, w.makeTx(&op.Txs[t], pre.model, pre.cont, nil))
+				}
+				if len(txs) > 0 {
+					adds = append(adds, addAct{k, txs})
+					info.txs = append(info.txs, txs...)
+				}
+			case "tip":
+				tips = append(tips, struct {
+					idx int
+					tip uint64
+				}{k, op.Tip})
+			case "head", "reorg":
+				// chained on whatever the previous head operation of this round built
+				hp := *headPre
+				if len(heads) > 0 {
+					hp.head = heads[len(heads)-1]
+					hp.model = hp.head.model
+				}
+				heads = append(heads, w.buildBranch(op, &hp, info)...)
+			}
+		}
+		w.chain.mu.Lock()
+		w.chain.gate = func(label string) { sched.Gate("seam:" + label) }
+		w.chain.mu.Unlock()
+		for _, a := range adds {
+			a := a
+			sched.Go(fmt.Sprintf("A%02d", a.idx), func() {
+				w.tp.Add(a.txs, false)
+			})
+		}
+		for _, tp := range tips {
+			tp := tp
+			sched.Go(fmt.Sprintf("T%02d", tp.idx), func() {
+				w.tp.SetGasTip(new(big.Int).SetUint64(tp.tip))
+				w.tip = tp.tip
+			})
+		}
+		if len(heads) > 0 {
+			sched.Go("H", func() {
+				for n, b := range heads {
+					if n > 0 {
+						sched.Gate(fmt.Sprintf("H:head:%d", n))
+					}
+					w.chain.setHead(b)
+					w.chain.announce()
+				}
+			})
+		}
+		if len(adds)+len(tips)+len(heads) > 0 {
+			sched.Run()
+		}
+		w.chain.mu.Lock()
+		w.chain.gate = nil
+		w.chain.mu.Unlock()
+		if sched.Err != nil {
+			simcore.Harnessf("poolsim async scheduler: %v", sched.Err)
+		}
+		steps += sched.Steps()
+		choices += sched.Choices()
+		fp = fp.U64(sched.FP())
+		// advance the shared tape by what this round consumed
+		for n := 0; n < sched.Steps(); n++ {
+			tape.Next(1)
+		}
+		synctest.Wait()
+		if err := w.tp.Sync(); err != nil {
+			simcore.Harnessf("txpool.Sync: %v", err)
+		}
+		synctest.Wait()
+		w.lastStimulus = time.Now()
+		if len(heads) > 0 {
+			info.newHead = heads[len(heads)-1]
+		}
+		info.maint = true
+		post := w.observe()
+		w.logf("round %d-%d sched=%x head=%d p={%s} q={%s}", i, j-1, sched.FP(), post.head.number(),
+			hashesOf(post.cont.pending, w.chain.accts), hashesOf(post.cont.queued, w.chain.accts))
+		if v := w.check(&LPOp{Kind: "round"}, info, post); v != nil {
+			v.Msg = fmt.Sprintf("after the concurrent round of ops %d..%d: %s", i, j-1, v.Msg)
+			return v
+		}
+		w.res.Probe("async-round")
+		i = j
+	}
+	w.res.SchedFP = uint64(fp)
+	w.res.Events += steps
+	if choices >= 2 {
+		w.res.Probe("async-real-choices")
+	}
+	w.asyncChoices = choices
+	return nil
+}
+
+// checkRound: the clauses that do not need an exact before/after pairing.
+func (w *lpWorld) checkRound(info *opInfo, post *before, union map[common.Hash]*types.Transaction, np, nq int) *simcore.Violation {
+	k := &w.p.Knobs
+	cont := post.cont
+	// the round ended with Sync(): a full reset and maintenance cycle
+	w.limitsFresh = true
+	if uint64(nq) > k.GlobalQueue {
+		return simcore.Violf("global-queue-limit", "%d queued transactions after maintenance, GlobalQueue %d", nq, k.GlobalQueue)
+	}
+	if uint64(np) > k.GlobalSlots {
+		for ai, a := range w.chain.accts {
+			if uint64(len(cont.pending[a.addr])) > k.AccountSlots {
+				return simcore.Violf("global-slots-limit", "%d pending transactions after maintenance (GlobalSlots %d) although account %d holds %d > AccountSlots %d",
+					np, k.GlobalSlots, ai, len(cont.pending[a.addr]), k.AccountSlots)
+			}
+		}
+	}
+	for ai, a := range w.chain.accts {
+		if len(cont.queued[a.addr]) > 0 {
+			if _, ok := post.snap.Beats[a.addr]; !ok {
+				return simcore.Violf("heartbeat-missing", "account %d has queued transactions but no heartbeat", ai)
+			}
+		}
+	}
+	// transactions of the adopted chain are gone
+	if info.newHead != nil {
+		for b := info.newHead; b != nil && b.number() > info.pre.head.number()-min(info.pre.head.number(), 4); b = b.parent {
+			for _, tx := range b.block.Transactions() {
+				if union[tx.Hash()] != nil {
+					return simcore.Violf("included-still-pooled", "%x is part of the adopted chain (block %d) but still in the pool", tx.Hash().Bytes()[:4], b.number())
+				}
+			}
+		}
+	}
+	for _, tx := range info.txs {
+		if union[tx.Hash()] != nil {
+			w.res.Probe("accepted")
+		}
+	}
+	return nil
+}
